@@ -83,7 +83,7 @@ def main() -> int:
             for chk in meta["detected_by"]:
                 for seed in args.seeds.split(","):
                     e2 = dict(os.environ, VERIF_REPO=str(wt), VERIF_SEED=seed, VF_KEEP_EVIDENCE="1")
-                    rcc, outc = sh([str(VERIF / "check"), chk, "--tier", args.tier], cwd=str(VERIF), env=e2)
+                    rcc, outc = sh([str(VERIF / "check"), chk, "--tier", meta.get("tier", args.tier), *meta.get("check_args", [])], cwd=str(VERIF), env=e2)
                     hit = rcc == 1 and f"VIOLATION property={chk}" in outc
                     det[f"{chk}@{seed}"] = "caught" if hit else f"MISSED(rc={rcc})"
                     if not hit:
